@@ -38,10 +38,28 @@ var guardSpecs = []guardSpec{
 	{"markUnavailableGuard", "pkg/controller.v1beta1/trial/trial_controller_util.go", "UpdateTrialStatusCondition", "instance.MarkTrialStatusMetricsUnavailable(", verdictAtoms, verdictParams},
 	{"markFailedGuard", "pkg/controller.v1beta1/trial/trial_controller_util.go", "UpdateTrialStatusCondition", "instance.MarkTrialStatusFailed(", verdictAtoms, verdictParams},
 	{"markRunningGuard", "pkg/controller.v1beta1/trial/trial_controller_util.go", "UpdateTrialStatusCondition", "instance.MarkTrialStatusRunning(", verdictAtoms, verdictParams},
+	{"markRestartingGuard", "pkg/controller.v1beta1/experiment/experiment_controller.go", "Reconcile", "instance.MarkExperimentStatusRestarting(", expAtoms, expParams},
+	{"callCleanupGuard", "pkg/controller.v1beta1/experiment/experiment_controller.go", "Reconcile", "r.cleanupSuggestionResources(instance)", expAtoms, expParams},
+	{"callRestartGuard", "pkg/controller.v1beta1/experiment/experiment_controller.go", "Reconcile", "r.restartSuggestion(instance)", expAtoms, expParams},
+	{"callReconcileExperimentGuard", "pkg/controller.v1beta1/experiment/experiment_controller.go", "Reconcile", "r.ReconcileExperiment(instance)", expAtoms, expParams},
+	{"markCreatedGuard", "pkg/controller.v1beta1/experiment/experiment_controller.go", "Reconcile", "instance.MarkExperimentStatusCreated(", expAtoms, expParams},
 	{"sugRestartGuard", "pkg/controller.v1beta1/experiment/experiment_controller_util.go", "restartSuggestion", "original.DeepCopy()",
 		map[string]string{"err != nil": "getFailed", "errors.IsNotFound(err)": "notFound", "original.IsCompleted()": "sugCompleted", "original.IsRestarting()": "sugRestarting", "original.IsSucceeded()": "sugSucceeded", "instance.IsRestarting()": "expRestarting"},
 		[]string{"getFailed", "notFound", "sugCompleted", "sugRestarting", "sugSucceeded", "expRestarting"}},
 }
+
+var expAtoms = map[string]string{
+	"err != nil": "callFailed", "errors.IsNotFound(err)": "notFound", "needUpdate": "finalizerUpdateDue",
+	"instance.IsCompleted()": "completed",
+	"instance.Spec.ResumePolicy == experimentsv1beta1.NeverResume": "never", "instance.Spec.ResumePolicy == experimentsv1beta1.FromVolume": "fromVolume",
+	"util.IsCompletedExperimentRestartable(instance)": "restartable",
+	"instance.Spec.MaxTrialCount != nil":              "maxSet", "instance.Spec.MaxTrialCount == nil": "(!maxSet)",
+	"*instance.Spec.MaxTrialCount > instance.Status.Trials": "maxAboveTrials", "instance.Status.Trials != 0": "trialsNonZero",
+	"instance.HasRunningTrials()": "hasRunningTrials", "instance.IsCreated()": "created",
+	"instance.Status.StartTime == nil": "startUnset", "instance.Status.CompletionTime == nil": "completionUnset",
+	"equality.Semantic.DeepEqual(original.Status, instance.Status)": "statusSame",
+}
+var expParams = []string{"callFailed", "notFound", "finalizerUpdateDue", "completed", "never", "fromVolume", "restartable", "maxSet", "maxAboveTrials", "trialsNonZero", "hasRunningTrials", "created", "startUnset", "completionUnset", "statusSame"}
 
 var verdictAtoms = map[string]string{
 	"jobStatus.Condition == trialutil.JobSucceeded": "jobSucceeded", "jobStatus.Condition == trialutil.JobFailed": "jobFailed",
@@ -65,23 +83,6 @@ func (g *guardWalker) cond(e ast.Expr) string {
 	return boolToLean(g.fset, e, g.spec.atoms, &g.unknown)
 }
 
-func endsInReturn(b *ast.BlockStmt) bool {
-	if len(b.List) == 0 {
-		return false
-	}
-	switch x := b.List[len(b.List)-1].(type) {
-	case *ast.ReturnStmt:
-		return true
-	case *ast.IfStmt:
-		if x.Else == nil {
-			return false
-		}
-		eb, ok := x.Else.(*ast.BlockStmt)
-		return ok && endsInReturn(x.Body) && endsInReturn(eb)
-	}
-	return false
-}
-
 func (g *guardWalker) containsCall(n ast.Node) bool {
 	hit := false
 	ast.Inspect(n, func(m ast.Node) bool {
@@ -93,59 +94,73 @@ func (g *guardWalker) containsCall(n ast.Node) bool {
 	return hit
 }
 
-// walk a statement list under path condition `pc` (a list of conjuncts)
-func (g *guardWalker) walk(stmts []ast.Stmt, pc []string) {
+func gAnd(a, b string) string {
+	switch {
+	case a == "false" || b == "false":
+		return "false"
+	case a == "true":
+		return b
+	case b == "true":
+		return a
+	}
+	return "(" + a + " && " + b + ")"
+}
+
+func gOr(a, b string) string {
+	switch {
+	case a == "false":
+		return b
+	case b == "false":
+		return a
+	}
+	return "(" + a + " || " + b + ")"
+}
+
+// walk a statement list entered under path condition `pc`; returns the *factor* f such that control leaves the list at its
+// end (without having returned) exactly under `pc && f`
+func (g *guardWalker) walk(stmts []ast.Stmt, pc string) string {
+	factor := "true"
 	for _, st := range stmts {
+		cur := gAnd(pc, factor)
+		if cur == "false" {
+			return "false"
+		}
 		switch x := st.(type) {
 		case *ast.IfStmt:
-			c := g.cond(x.Cond)
 			if x.Init != nil && g.containsCall(x.Init) {
-				g.found = append(g.found, conj(pc))
+				g.found = append(g.found, cur)
 			}
-			g.walk(x.Body.List, append(append([]string{}, pc...), c))
-			switch e := x.Else.(type) {
+			c := g.cond(x.Cond)
+			nc := "(!" + c + ")"
+			ft := g.walk(x.Body.List, gAnd(cur, c))
+			fe := "true"
+			switch el := x.Else.(type) {
 			case *ast.BlockStmt:
-				g.walk(e.List, append(append([]string{}, pc...), "(!"+c+")"))
-				if endsInReturn(x.Body) && endsInReturn(e) {
-					return
-				}
-				if endsInReturn(x.Body) {
-					pc = append(pc, "(!"+c+")")
-				} else if endsInReturn(e) {
-					pc = append(pc, c)
-				}
+				fe = g.walk(el.List, gAnd(cur, nc))
 			case *ast.IfStmt:
-				g.walk([]ast.Stmt{e}, append(append([]string{}, pc...), "(!"+c+")"))
-				if endsInReturn(x.Body) {
-					pc = append(pc, "(!"+c+")")
-				}
-			default:
-				if endsInReturn(x.Body) {
-					pc = append(pc, "(!"+c+")")
-				}
+				fe = g.walk([]ast.Stmt{el}, gAnd(cur, nc))
 			}
+			if !(ft == "true" && fe == "true") {
+				factor = gAnd(factor, gOr(gAnd(c, ft), gAnd(nc, fe)))
+			}
+		case *ast.BlockStmt:
+			factor = gAnd(factor, g.walk(x.List, cur))
 		case *ast.ForStmt, *ast.RangeStmt, *ast.SwitchStmt, *ast.TypeSwitchStmt, *ast.SelectStmt:
 			if g.containsCall(x) {
 				g.unsupported = append(g.unsupported, fmt.Sprintf("%T", x))
 			}
 		case *ast.ReturnStmt:
 			if g.containsCall(x) {
-				g.found = append(g.found, conj(pc))
+				g.found = append(g.found, cur)
 			}
-			return
+			return "false"
 		default:
 			if g.containsCall(x) {
-				g.found = append(g.found, conj(pc))
+				g.found = append(g.found, cur)
 			}
 		}
 	}
-}
-
-func conj(pc []string) string {
-	if len(pc) == 0 {
-		return "true"
-	}
-	return "(" + strings.Join(pc, " && ") + ")"
+	return factor
 }
 
 func extractGuards(repo, out string) error {
@@ -160,7 +175,7 @@ func extractGuards(repo, out string) error {
 		g := &guardWalker{fset: fset, spec: sp}
 		for _, d := range f.Decls {
 			if fd, ok := d.(*ast.FuncDecl); ok && fd.Name.Name == sp.fn && fd.Body != nil {
-				g.walk(fd.Body.List, nil)
+				g.walk(fd.Body.List, "true")
 			}
 		}
 		body := "false"
